@@ -28,12 +28,17 @@ def real_order(n, adj):
         for d in ds:
             g.add_dependency('n%d' % x, 'n%d' % d)
     g.finalize()
-    try:
-        leaves = [int(nd.key[1:]) for nd in g.get_leaf_nodes()]
-        order = [int(nd.key[1:]) for nd in g.get_ordered()]
-    except Exception as e:  # a (repaired) implementation may report cycles
-        return ('error', type(e).__name__)
-    return ('ok', leaves, order)
+    # the order is asked for three times: a finalized graph gives the same answer (or the same error) every time,
+    # and it is the LAST answer that is judged
+    answers = []
+    for _ in range(3):
+        try:
+            leaves = [int(nd.key[1:]) for nd in g.get_leaf_nodes()]
+            order = [int(nd.key[1:]) for nd in g.get_ordered()]
+            answers.append(('ok', leaves, order))
+        except Exception as e:  # a (repaired) implementation may report cycles
+            answers.append(('error', type(e).__name__))
+    return answers[-1]
 
 
 def real_order_late(n, adj, late):
